@@ -21,3 +21,4 @@ def run(ctx):
     immut.im6(ctx)
     immut.im7(ctx)
     immut.im8(ctx)
+    immut.im9(ctx)
